@@ -784,11 +784,11 @@ using SPProto = std::shared_ptr<ProtoInterface const>;
 
 static SPObj sph(string l, double r)
 {
-    return std::make_shared<SphereShape>(std::move(l), Sphere{r});
+    return std::make_shared<SphereShape>(std::move(l), celeritas::orangeinp::Sphere{r});
 }
 static SPObj cyl(string l, double r, double hh)
 {
-    return std::make_shared<CylinderShape>(std::move(l), Cylinder{r, hh});
+    return std::make_shared<CylinderShape>(std::move(l), celeritas::orangeinp::Cylinder{r, hh});
 }
 static SPObj tr(SPObj o, Real3 const& t)
 {
@@ -798,7 +798,7 @@ static SPObj box(string l, Real3 const& lo, Real3 const& hi)
 {
     Real3 hw{(hi[0] - lo[0]) / 2, (hi[1] - lo[1]) / 2, (hi[2] - lo[2]) / 2};
     Real3 c{(hi[0] + lo[0]) / 2, (hi[1] + lo[1]) / 2, (hi[2] + lo[2]) / 2};
-    SPObj b = std::make_shared<BoxShape>(std::move(l), Box{hw});
+    SPObj b = std::make_shared<BoxShape>(std::move(l), celeritas::orangeinp::Box{hw});
     if (c[0] != 0 || c[1] != 0 || c[2] != 0)
         b = tr(std::move(b), c);
     return b;
